@@ -44,8 +44,16 @@ package authenticode
 //@        forall(h, inmap(allhashes, h) && phvalues[h] != nil ==> in(pagesChecked, h))
 //@   ensures @every_accepted_signature_contributes_its_hash ret1 == nil ==> forall(h, in(sigHashes, h) ==> inmap(allhashes, h) && inmap(values, h))
 //@
+//@ func findSignatures
+//@   property C11 C02
+//@   nopanic
+//@   requires r != nil
+//@   ensures @header_values_present_on_success ret1 == nil ==> ret0 != nil
+//@
 //@ func VerifyPE
-//@   property C02
+//@   property C02 C11
+//@   nopanic
+//@   requires r != nil
 //@   before call checkSignatures(_, img): assert @image_passed_unless_digests_skipped !skipDigests ==> img == r && r != nil
 //@
 //@ func DigestMSI
